@@ -1148,4 +1148,90 @@ theorem orGates_sem {σ0 : FState} {es : List Nat} {dest : Option Nat} {e : BExp
       rw [all_not_eq es (cur σ0 s) (cur σ0 s1) (fun q hq => by rw [v1 q]; simp [hq])]
       cases cur σ0 s d <;> cases es.any (cur σ0 s) <;> rfl
 
+theorem exprSem_or {inputs : List String} {ρ : Env} {σ0 : FState} {r : String} (amb : Amb inputs σ0 r)
+    {args : List BExp} (ih : ArgsSem inputs ρ σ0 r args) : ExprSem inputs ρ σ0 r (.or args) := by
+  intro dest sym a s s' h hp hcache hd hsym _
+  unfold compileExpr at h
+  dsimp only at h
+  obtain ⟨r0, s1, hget, h1⟩ := run_bind_ok.mp h
+  obtain ⟨rfl, rfl⟩ := expqGet?_miss hget (fun p hp' => hcache p hp' _ (by simp [compSubs]))
+  dsimp only at h1
+  obtain ⟨erets, s2, hargs, h2⟩ := run_bind_ok.mp h1
+  obtain ⟨st1, _⟩ := argsSpec (B := (· = r)) args hargs hp.good
+  obtain ⟨sem1, hvals, hb⟩ := ih hargs hp (fun p hp' c hc => hcache p hp' c (by simp [compSubs, hc]))
+  have hp2 : Pre inputs ρ σ0 s2 := hp.next amb st1 sem1 (by intro q hq; exact hq.elim)
+  have body : ∀ {d : Nat} {s3 : CState} {k : M Nat} (es : List Nat),
+      es = sortNat (if erets.contains d = true then erets.erase d else erets).eraseDups →
+      (destOr dest).run s2 = .ok (d, s3) →
+      StateT.run (if erets.contains d = true then do event "destAmongArgs"; k else k) s3 = .ok (a, s') →
+      (∀ {t : CState}, k.run t = .ok (a, s') → d ∉ es →
+        a = d ∧ Sem σ0 (· = d) (· = BExp.or args) (fun m => m ∈ es ∧ m ∈ t.qc.anc) t s' ∧
+          cur σ0 s' d = Bool.xor (cur σ0 t d) (es.any (cur σ0 t))) →
+      Sem σ0 (fun q => dest = some q) (· ∈ compSubs (BExp.or args))
+        (fun m => s1.qc.numQubits ≤ m ∧ (dest = none → m ≠ a)) s1 s' ∧
+      (dest = none → (a < inputs.length ∨ s1.qc.numQubits ≤ a) ∧ cur σ0 s' a = (BExp.or args).eval ρ) ∧
+      (∀ d, dest = some d → a = d ∧ cur σ0 s' d = Bool.xor (cur σ0 s1 d) ((BExp.or args).eval ρ)) := by
+    intro d s3 k es hes hdest h3 hk
+    obtain ⟨hp3, sem2, hc2, hdn, hdcase⟩ := dest_sem amb hp2 sem1.nq hd hb hdest
+    have hcd : ¬ (erets.contains d = true) := by simpa using hdn
+    rw [if_neg hcd] at hes
+    have hdes : d ∉ es := by rw [hes, mem_sortDedup]; exact hdn
+    rcases run_ite_ok.mp h3 with ⟨hc, _⟩ | ⟨_, h3⟩
+    · exact absurd hc hcd
+    · obtain ⟨rfl, semf, hv⟩ := hk h3 hdes
+      have hval : cur σ0 s' a = Bool.xor (cur σ0 s2 a) (evalOr ρ args) := by
+        rw [hv, hes, any_sortDedup, hc2, any_of_map hvals]
+      have hmk : ∀ m, m ∈ es ∧ m ∈ s3.qc.anc → s1.qc.numQubits ≤ m ∧ m < s2.qc.numQubits := by
+        rintro m ⟨h1, h2⟩
+        rw [hes] at h1
+        have hm := hb m (mem_sortDedup.mp h1)
+        have := hp3.sge.1 m h2
+        exact ⟨by omega, hm.2⟩
+      rcases hdcase with hsome | ⟨hnone, hda, hz⟩
+      · subst hsome
+        obtain ⟨hd1, hd2⟩ := hd a rfl
+        refine ⟨((sem1.trans' sem2).trans' semf).mono ?_ ?_ ?_, fun hn => (by cases hn), fun d' hd' => ?_⟩
+        · rintro q _ ((h | h) | h)
+          · exact h.elim
+          · exact h.elim
+          · rw [h]
+        · rintro c ((h | h) | h)
+          · simp [compSubs, show c ∈ compSubsList args from h]
+          · exact h.elim
+          · simp [compSubs, show c = BExp.or args from h]
+        · rintro m ((h | h) | h)
+          · exact ⟨h, fun hn => by cases hn⟩
+          · exact h.elim
+          · exact ⟨(hmk m h).1, fun hn => by cases hn⟩
+        · cases hd'
+          refine ⟨rfl, ?_⟩
+          rw [hval, sem1.frame a hd2 (fun h => h)]
+          simp [BExp.eval]
+      · subst hnone
+        refine ⟨(((sem1.with_lt hp2.good).trans' sem2).trans' semf).mono ?_ ?_ ?_,
+          fun _ => ⟨Or.inr (by have := sem1.nq; omega), ?_⟩, fun d' hd' => by cases hd'⟩
+        · rintro q hq ((h | h) | h)
+          · exact h.elim
+          · exact h.elim
+          · have := sem1.nq; omega
+        · rintro c ((h | h) | h)
+          · simp [compSubs, show c ∈ compSubsList args from h]
+          · exact h.elim
+          · simp [compSubs, show c = BExp.or args from h]
+        · rintro m ((h | h) | h)
+          · exact ⟨h.1, fun _ => by have := h.2; omega⟩
+          · exact h.elim
+          · exact ⟨(hmk m h).1, fun _ => by have := (hmk m h).2; omega⟩
+        · rw [hval, hz]
+          simp [BExp.eval]
+  cases dest with
+  | some d0 =>
+    dsimp only at h2
+    obtain ⟨d, s3, hp0, h4⟩ := run_bind_ok.mp h2
+    exact body _ rfl hp0 h4 (fun hk hdes => orGates_sem hk hdes)
+  | none =>
+    dsimp only at h2
+    obtain ⟨d, s3, hf, h4⟩ := run_bind_ok.mp h2
+    exact body _ rfl hf h4 (fun hk hdes => orGates_sem hk hdes)
+
 end QV.Compiler
